@@ -59,6 +59,7 @@ type Tokenizer struct {
 	str              string
 	isLast           bool
 	last             rune
+	lastStr          string
 	tok              chan Token
 	tokenAvail       int
 	token            [2]Token
@@ -71,6 +72,20 @@ type Tokenizer struct {
 	keyWord          map[string]bool
 	comfortEnabled   bool
 }
+
+// scanMode tells peek how the runes it reads are to be treated.
+type scanMode int
+
+const (
+	// verbatim is used inside string literals and quoted identifiers:
+	// every rune stands for itself.
+	verbatim scanMode = iota
+	// inToken is used inside numbers, identifiers and operators: the typographic
+	// aliases are replaced, but a '/' never starts a comment.
+	inToken
+	// betweenTokens skips comments (if enabled) and replaces the typographic aliases.
+	betweenTokens
+)
 
 type Matcher func(r rune) (func(r rune) bool, bool)
 
@@ -195,7 +210,7 @@ func (t *Tokenizer) run(tokens chan<- Token) {
 	lastWasBlank := false
 	for {
 		thisTokenType := tInvalid
-		switch n := t.next(true); n {
+		switch n := t.next(betweenTokens); n {
 		case '\n':
 			t.line++
 			lastWasBlank = true
@@ -235,8 +250,8 @@ func (t *Tokenizer) run(tokens chan<- Token) {
 		case '"':
 			tokens <- t.readStr()
 		case '\'':
-			image := t.readSkip(func(c rune) bool { return c != '\'' }, false)
-			t.next(false)
+			image := t.readSkip(func(c rune) bool { return c != '\'' }, verbatim)
+			t.next(verbatim)
 			tokens <- Token{tIdent, image, t.getLine()}
 		case '⁰':
 			tokens <- Token{tOperate, "^", t.getLine()}
@@ -270,7 +285,7 @@ func (t *Tokenizer) run(tokens chan<- Token) {
 			tokens <- Token{tNumber, "9", t.getLine()}
 		default:
 			t.unread()
-			c := t.peek(true)
+			c := t.peek(betweenTokens)
 			if f, ok := t.number(c); ok {
 				if lastTokenType == tNumber || lastTokenType == tIdent || lastTokenType == tClose {
 					tokens <- Token{tOperate, "*", t.getLine()}
@@ -312,11 +327,11 @@ func (t *Tokenizer) run(tokens chan<- Token) {
 }
 
 func (t *Tokenizer) parseOperator() (string, bool) {
-	r := t.next(false)
+	r := t.next(inToken)
 	if d, _ := t.operatorDetector(r); d != nil {
 		op := string(r)
 		for {
-			r = t.next(false)
+			r = t.next(inToken)
 			var ok bool
 			if d, ok = d(r); d != nil {
 				op += string(r)
@@ -330,19 +345,20 @@ func (t *Tokenizer) parseOperator() (string, bool) {
 	}
 }
 
-func (t *Tokenizer) peek(skipComment bool) rune {
+func (t *Tokenizer) peek(mode scanMode) rune {
 	if t.isLast {
 		return t.last
 	}
 	if len(t.str) == 0 {
 		t.last = EOF
+		t.lastStr = t.str
 		return EOF
 	}
 	var size int
 	t.last, size = utf8.DecodeRuneInString(t.str)
 
-	if t.allowComments && skipComment {
-		if t.last == '/' && len(t.str) > size {
+	if t.allowComments && mode == betweenTokens {
+		for t.last == '/' && len(t.str) > size {
 			s, l := utf8.DecodeRuneInString(t.str[size:])
 			if s == '/' {
 				t.str = t.str[size+l:]
@@ -384,53 +400,61 @@ func (t *Tokenizer) peek(skipComment bool) rune {
 					}
 				}
 				t.last, size = utf8.DecodeRuneInString(t.str)
+			} else {
+				break
 			}
 		}
 	}
 
-	switch t.last {
-	case '•':
-		t.last = '*'
-	case '×':
-		t.last = '*'
-	case '÷':
-		t.last = '/'
-	case '–':
-		t.last = '-'
-	case 'ˆ':
-		t.last = '^'
+	if mode != verbatim {
+		switch t.last {
+		case '•':
+			t.last = '*'
+		case '×':
+			t.last = '*'
+		case '÷':
+			t.last = '/'
+		case '–':
+			t.last = '-'
+		case 'ˆ':
+			t.last = '^'
+		}
 	}
 
 	t.isLast = true
+	t.lastStr = t.str
 	t.str = t.str[size:]
 	return t.last
 }
 
-func (t *Tokenizer) consume(skipComment bool) {
+func (t *Tokenizer) consume(mode scanMode) {
 	if !t.isLast {
-		t.peek(skipComment)
+		t.peek(mode)
 	}
 	t.isLast = false
 }
 
+// unread pushes the rune read last back to the input,
+// so that it is read again in the mode of the next reader.
 func (t *Tokenizer) unread() {
-	t.isLast = true
+	t.str = t.lastStr
+	t.isLast = false
 }
 
-func (t *Tokenizer) next(skipComment bool) rune {
-	n := t.peek(skipComment)
-	t.consume(skipComment)
+func (t *Tokenizer) next(mode scanMode) rune {
+	n := t.peek(mode)
+	t.consume(mode)
 	return n
 }
 
 func (t *Tokenizer) read(valid func(c rune) bool) string {
-	return t.readSkip(valid, true)
+	return t.readSkip(valid, inToken)
 }
 
-func (t *Tokenizer) readSkip(valid func(c rune) bool, skipComment bool) string {
+func (t *Tokenizer) readSkip(valid func(c rune) bool, mode scanMode) string {
 	str := strings.Builder{}
 	for {
-		if c := t.next(skipComment); c != 0 && valid(c) {
+		if c := t.next(mode); c != 0 && valid(c) {
 			str.WriteRune(c)
 		} else {
 			t.unread()
@@ -442,12 +466,12 @@ func (t *Tokenizer) readSkip(valid func(c rune) bool, skipComment bool) string {
 func (t *Tokenizer) readStr() Token {
 	str := strings.Builder{}
 	for {
-		if c := t.next(false); c != '"' {
+		if c := t.next(verbatim); c != '"' {
 			switch c {
 			case 0, '\n', '\r':
 				return Token{tInvalid, "EOL", t.getLine()}
 			case '\\':
-				i := t.next(false)
+				i := t.next(verbatim)
 				switch i {
 				case 'n':
 					str.WriteRune('\n')
